@@ -356,21 +356,15 @@ def bi_dict(eng, args, kwargs, node):
     pat = [z3.MultiPattern(z3.Select(tup, i), lst_j)]
     eng.fact(z3.ForAll([i, j], z3.Implies(z3.And(0 <= i, i < plen, 0 <= j, j < n), rec_has(drec, key_ij)),
                        patterns=pat))
-    # ... whose value is the one of the last pair carrying that key (dict(pairs): later pairs win)
-    win = z3.Function('rec_winner', I, I, I)
-    wj = win(z3.Select(tup, i), j)
-    lst_w = z3.Select(eng.lel_arrays(VRef(lists.term, lists.typ, st))[0], wj)
-    arrs_w = eng.lel_arrays(VRef(lst_w, inner_t, st))
-    eng.fact(z3.ForAll([i, j], z3.Implies(z3.And(0 <= i, i < plen, 0 <= j, j < n),
-                                          z3.And(j <= wj, wj < n, z3.Select(arrs_w[0], dg(i, wj)) == key_ij,
-                                                 rec_get(drec, key_ij) == z3.Select(arrs_w[1], dg(i, wj)))),
-                       patterns=pat))
     # ... and no other key
     kj = kidx(drec, k)
     lst_kj = z3.Select(eng.lel_arrays(VRef(lists.term, lists.typ, st))[0], kj)
     key_kj = z3.Select(eng.lel_arrays(VRef(lst_kj, inner_t, st))[0], dg(i, kj))
+    val_kj = z3.Select(eng.lel_arrays(VRef(lst_kj, inner_t, st))[1], dg(i, kj))
+    # every key of the record comes from one pair of the tuple (the last one carrying it), with that pair's value
     eng.fact(z3.ForAll([i, k], z3.Implies(z3.And(0 <= i, i < plen, rec_has(drec, k)),
-                                          z3.And(0 <= kj, kj < n, key_kj == k))))
+                                          z3.And(0 <= kj, kj < n, key_kj == k, rec_get(drec, k) == val_kj)),
+                       patterns=[rec_has(drec, k)]))
     return d
 
 
